@@ -528,7 +528,12 @@ impl Scanner {
                 "$" => {
                     let s = self.advance();
                     if s != "{" {
-                        return self.error_token("Expected '{' in string interpolation.");
+                        let is_newline = s == "\n";
+                        let token = self.error_token("Expected '{' in string interpolation.");
+                        if is_newline {
+                            self.line += 1;
+                        }
+                        return token;
                     }
                     if self.parantheses.len() >= common::INTERPOLATION_DEPTH_MAX {
                         return self.error_token("Max interpolation depth exceeded.");
@@ -581,6 +586,11 @@ impl Scanner {
                         "\"" => buffer.push_str("\""),
                         "\\" => buffer.push_str("\\"),
                         "0" => buffer.push_str("\0"),
+                        "\n" => {
+                            let token = self.error_token("Invalid escape sequence.");
+                            self.line += 1;
+                            return token;
+                        }
                         _ => {
                             return self.error_token("Invalid escape sequence.");
                         }
